@@ -75,6 +75,7 @@ def mtl_faults(ctx: Ctx, M):
             pos = rng.randint(0, len(tp[t]))
             tp[t].insert(pos, rng.choice(shared))
             yield "shared/task overlap", t, {**base, "tasks": tp}
+            yield "shared/task overlap (shared_params defaulted)", t, {**base, "tasks": tp, "shared": None, "m_shared": shared}
         yield "duplicate shared parameter", 0, {**base, "shared": shared + [shared[0]]}
     for t in range(T):
         if tasks[t]:
